@@ -559,6 +559,9 @@ func (idx *SelectorAndNamedPortIndex) UpdateEndpointOrSet(
 		for i, pID := range parentIDs {
 			parents[i] = idx.getOrCreateParent(pID)
 		}
+		// A parent that is named more than once is inherited once; the per-parent
+		// bookkeeping assumes that each parent appears once in the list.
+		parents = dedupeParents(parents)
 		newEndpointData.parents = parents
 	}
 	if len(nets) > 0 {
